@@ -69,6 +69,9 @@ type ropHooks struct {
 	reuse bool
 	pl    segment.PostingsList
 	it    segment.PostingsIterator
+	// retry: after a call on an iterator / reader object reported an error,
+	// the same object is used again (a caller may retry); this must not panic
+	retry bool
 }
 
 func (h *ropHooks) call(api string, err error, empty bool) bool {
@@ -86,10 +89,17 @@ func ropTerm(ws *WSeg, op *ROp) (field string, term []byte, list []model.PostObs
 	names := ropNames(ws)
 	field = names[op.Field%len(names)]
 	all := ws.Exp().Dicts[field]
-	term = []byte("absent-term")
 	if !op.Absent && len(all) > 0 {
 		to := all[op.Term%len(all)]
-		term, list = to.Term, to.Posts
+		return field, to.Term, to.Posts
+	}
+	// a text that usually exists in another field of the segment
+	pool := termPool(ws)
+	term = pool[op.Term%len(pool)]
+	for _, to := range all {
+		if bytesEq(to.Term, term) {
+			list = to.Posts
+		}
 	}
 	return
 }
@@ -201,6 +211,10 @@ func ExecROp(ws *WSeg, seg segment.Segment, op *ROp, h *ropHooks) (*RRes, error)
 		for {
 			e, err := it.Next()
 			if !h.call("DictionaryIterator.Next", err, e == nil) {
+				if err != nil && h.retry {
+					_, _ = it.Next()
+					_, _ = it.Next()
+				}
 				return r, err
 			}
 			if e == nil {
@@ -238,6 +252,11 @@ func ExecROp(ws *WSeg, seg segment.Segment, op *ROp, h *ropHooks) (*RRes, error)
 		for {
 			p, err := it.Next()
 			if !h.call("PostingsIterator.Next", err, p == nil) {
+				if err != nil && h.retry {
+					_, _ = it.Next()
+					_, _ = it.Advance(uint64(len(ws.Docs) / 2))
+					_, _ = it.Next()
+				}
 				return r, err
 			}
 			if p == nil {
@@ -276,6 +295,12 @@ func ExecROp(ws *WSeg, seg segment.Segment, op *ROp, h *ropHooks) (*RRes, error)
 			})
 			r.FVs = append(r.FVs, append([]model.FV{}, got...))
 			if !h.call("VisitDocumentValues", err, len(got) == 0) {
+				if err != nil && h.retry {
+					// the same reader again: the documents visited before and this one
+					for _, d2 := range ropDocs(ws, op) {
+						_ = dvr.VisitDocumentValues(d2, func(string, []byte) {})
+					}
+				}
 				return r, err
 			}
 		}
